@@ -2,6 +2,8 @@ package verifh
 
 import (
 	"bytes"
+	"os"
+	"path/filepath"
 	"strings"
 	"testing"
 	"testing/synctest"
@@ -251,7 +253,7 @@ func c16DrainRun(t *testing.T, root string, T time.Duration, seq []int, want []b
 func TestC16(t *testing.T) {
 	r := NewReporter(t)
 	defer r.Done()
-	r.Rule("T in {100 ms, 1 s, 10 min} x all event sequences of length <= depth over {advance 0.2T,0.5T,0.8T,1.0T,1.2T; deliver 1 byte; deliver rest of the 16-byte command; deliver half of the rest; deliver rest of request; deliver rest of request together with the next command's 16 bytes} over a cyclic script {Stat, OpenFile, ReadFile (header only), WriteFile+payload (refused), OpenDir, ReadDirEntry (header only)} and, with writing enabled, {CreateFile, WriteFile+1000-byte payload, Stat, WriteFile+10 bytes}; sequences are cut at the first close; oracle: close at exactly (instant the server started waiting for the current request)+T iff the request is incomplete then, never earlier or later; completed requests answered; handle ledger empty after the cut; bursts of 2 / 3 / 8 connections queued before the accept loop runs, each with its own deadline; slow-drain family: all sequences over {advance 0.3T/0.55T, issue 40000-byte critical read, take 4096 bytes, take all} through a 4096-byte send buffer with write deadlines modelled, never cut while requests are < T apart; distinct by (T, executed event prefix)")
+	r.Rule("T in {100 ms, 1 s, 10 min} x all event sequences of length <= depth over {advance 0.2T,0.5T,0.8T,1.0T,1.2T; deliver 1 byte; deliver rest of the 16-byte command; deliver half of the rest; deliver rest of request; deliver rest of request together with the next command's 16 bytes} over a cyclic script {Stat, OpenFile, ReadFile (header only), WriteFile+payload (refused), OpenDir, ReadDirEntry (header only)} and, with writing enabled, {CreateFile, WriteFile+1000-byte payload, Stat, WriteFile+10 bytes}; sequences are cut at the first close; oracle: close at exactly (instant the server started waiting for the current request)+T iff the request is incomplete then, never earlier or later; completed requests answered; handle ledger empty after the cut; bursts of 2 / 3 / 8 connections queued before the accept loop runs, each with its own deadline; slow-drain family: all sequences over {advance 0.3T/0.55T, issue 40000-byte critical read, take 4096 bytes, take all} through a 4096-byte send buffer with write deadlines modelled, never cut while requests are < T apart; distinct by (T, executed event prefix); the real binary with 7 spellings of the period (fractional, compound, other units) x flag / environment / configuration file: an idle connection is cut no earlier than the period and within 20 s after it")
 	w := newWorld(t, "srv/root")
 	defer w.Cleanup()
 	w.File("a.txt", 10, 1)
@@ -554,6 +556,73 @@ func TestC16(t *testing.T) {
 				idx++
 			}
 		}
+	}
+	// the real binary: the period is what the operator wrote (whole, fractional, compound spellings, through flag,
+	// environment and configuration file). One-sided on a real clock: a cut before the period is a violation at once
+	// (timers never fire early); a connection still open 20 s after the period is one too.
+	if binPath() != "" {
+		logDir := binLogDir("C16")
+		must(os.MkdirAll(logDir, 0o755))
+		root := filepath.Join(logDir, "root")
+		must(os.MkdirAll(root, 0o755))
+		spellings := []struct {
+			text string
+			d    time.Duration
+		}{{"1.5s", 1500 * time.Millisecond}, {"0.5s", 500 * time.Millisecond}, {"1500ms", 1500 * time.Millisecond}, {"0.025m", 1500 * time.Millisecond}, {"1s500ms", 1500 * time.Millisecond}, {"2s", 2 * time.Second}, {"0.0005h", 1800 * time.Millisecond}}
+		for si, sp := range spellings {
+			for ci, channel := range []string{"flag", "env", "ini"} {
+				if !r.Mine(si*3+ci) || r.TimeUp() {
+					continue
+				}
+				args := []string{"server", "--listen-addr=127.0.0.1:0", "--root=" + root}
+				env := cleanEnv(logDir)
+				switch channel {
+				case "flag":
+					args = append(args, "--read-timeout="+sp.text)
+				case "env":
+					env = append(env, "PS3NETSRV_READ_TIMEOUT="+sp.text)
+				case "ini":
+					ini := filepath.Join(logDir, sprintf("c16-%d-%d.ini", si, r.Shard))
+					must(os.WriteFile(ini, []byte("[server]\nread-timeout = "+sp.text+"\n"), 0o644))
+					args = append([]string{"--config=" + ini}, args...)
+				}
+				key := sprintf("real binary: read-timeout %q via %s", sp.text, channel)
+				r.State(key)
+				r.Nontrivial(key)
+				b, err := startBin(args, env, logDir, filepath.Join(logDir, sprintf("server-%d.log", r.Shard)), 30*time.Second)
+				r.Trace(1)
+				if err != nil {
+					r.Outcome("bin-timeout-spelling-refused")
+					if b != nil {
+						b.Stop()
+					}
+					continue // whether a spelling is accepted is C19's business; here only what an accepted one means
+				}
+				c, err := dialFrom(b.Addr, "", 10*time.Second)
+				if err != nil {
+					b.Stop()
+					continue
+				}
+				// one complete request first, then silence: the period counts from the end of that exchange
+				c.statProbe("/", 10*time.Second)
+				start := time.Now()
+				_, rerr := c.readN(1, sp.d+20*time.Second)
+				el := time.Since(start)
+				c.Close()
+				b.Stop()
+				switch {
+				case rerr != nil && isTimeout(rerr):
+					r.Outcome("bin-timeout-not-applied")
+					r.Violation("C16:bin:not-cut", sprintf("%s: an idle connection was still open %v after its last request (period %v)", key, el.Round(time.Millisecond), sp.d), map[string]any{"spelling": sp.text, "channel": channel})
+				case el < sp.d-50*time.Millisecond:
+					r.Outcome("bin-timeout-early")
+					r.Violation("C16:bin:cut-early", sprintf("%s: an idle connection was cut %v after its last request, before the period of %v had passed", key, el.Round(time.Millisecond), sp.d), map[string]any{"spelling": sp.text, "channel": channel})
+				default:
+					r.Outcome("bin-timeout-applied")
+				}
+			}
+		}
+		os.RemoveAll(logDir)
 	}
 	r.Assume("virtual clock of testing/synctest; vnet deadlines use bubble timers; processing takes zero virtual time, so 'the instant the server started waiting' is the instant the previous request was completed (or the connection accepted)")
 }
